@@ -53,6 +53,7 @@ class Decl(object):
         f = self.f = p.declare_function(models.get_class(cls), **kw)
         self.slots = []       # (leaf point, kind) kind in 'grid' | 'stat' | 'fixed' | 'vdisp' | 'ugrid'
         self.calls = []       # (point, returned gradient, returned value) of every plain oracle call, in call order
+        self.declared_stat = []   # what every stationary_point() declaration returned
         pts = []
         for op in hist:
             if op == "e":
@@ -75,9 +76,9 @@ class Decl(object):
                 self.calls.append((x,) + tuple(f.oracle(x))); self.calls.append((y,) + tuple(f.oracle(y)))
                 pts.append(x); pts.append(y)
             elif op == "s":
-                x = f.stationary_point(); self.slots.append((x, "stat")); pts.append(x)
+                x = f.stationary_point(); self.slots.append((x, "stat")); pts.append(x); self.declared_stat.append(x)
             elif op == "S":
-                x = (2 * f).stationary_point(); self.slots.append((x, "stat")); pts.append(x)
+                x = (2 * f).stationary_point(); self.slots.append((x, "stat")); pts.append(x); self.declared_stat.append(x)
             elif op == "x":
                 x, _, _ = f.fixed_point(); self.slots.append((x, "fixed")); pts.append(x)
             elif op == "t":
@@ -113,6 +114,16 @@ def judge(cls, par, member, hist, stats, pre_par=None, same_names=False):
     if not d.ok:
         return None
     f = d.f
+    # two declarations "let x be a stationary point" are two points: a member with several stationary points has executions
+    # in which they differ, which the declared objects must be able to represent
+    for i_ in range(len(d.declared_stat)):
+        for j_ in range(i_):
+            if d.declared_stat[i_].decomposition_dict == d.declared_stat[j_].decomposition_dict \
+                    and len({tuple(np.round(s_, 9).tolist()) for s_ in member.stationary}) >= 2:
+                return [("member-excluded:stationary-points-identified:%s" % cls,
+                         "two stationary_point() declarations returned one and the same point, real member %s (%s) has the "
+                         "distinct stationary points %s; declaration %s"
+                         % (member.name, par, [np.round(s_, 3).tolist() for s_ in member.stationary[:3]], "".join(hist)))]
     nP, nF = Point.counter, Expression.counter
     n = member.dim
     m_out = getattr(member, "outdim", n)
